@@ -77,6 +77,8 @@ type LockMon struct {
 	hgEv, hgN    int
 	hgCnt        int
 	hgHit, hgGo  chan struct{}
+	shrinkHold   chan struct{}
+	shrinkParked int
 }
 
 type retryState struct {
@@ -259,6 +261,12 @@ func hookEvent(ev int, t interface{}, inum uint64) {
 				}
 			}
 		}
+		if o := m.owner[inum]; o != nil && o != ts && o.gid == ts.gid && m.deadlock == "" {
+			// the lock is held by an earlier transaction of the very goroutine
+			// that now asks for it: that transaction cannot commit or abort
+			// while its goroutine is blocked here
+			m.deadlock = fmt.Sprintf("self-deadlock: transaction %d (goroutine %d, %s) requests inode %d, which transaction %d of the same goroutine holds (held: %v): the request waits on itself", ts.id, ts.gid, site, inum, o.id, o.held)
+		}
 		if o := m.owner[inum]; o != nil && o != ts {
 			m.contended++
 			ts.waiting = inum
@@ -325,6 +333,11 @@ func hookEvent(ev int, t interface{}, inum uint64) {
 			delete(m.txns, t)
 		}
 	}
+	var shold chan struct{}
+	if ev == vh.EvShrinkIter && m.shrinkHold != nil {
+		shold = m.shrinkHold
+		m.shrinkParked++
+	}
 	var park chan struct{}
 	// the abort event precedes the release of the locks: park at the Begin
 	// that follows the n-th abort (the locks are free then and the request
@@ -361,6 +374,14 @@ func hookEvent(ev int, t interface{}, inum uint64) {
 	}
 	if park != nil {
 		<-park // released by the director once its script has run
+	}
+	if shold != nil {
+		// background frees are held back (bounded) so that many of them are in
+		// flight at the same time
+		select {
+		case <-shold:
+		case <-time.After(3 * time.Second):
+		}
 	}
 	if y != 0 {
 		switch y % 16 {
@@ -492,6 +513,28 @@ func (m *LockMon) NoteRPC() {
 		delete(m.retry, g)
 	}
 	m.mu.Unlock()
+}
+
+// HoldShrinkers makes every goroutine that reaches a shrink iteration wait
+// (at most 3 s) until ReleaseShrinkers: background frees pile up.
+func (m *LockMon) HoldShrinkers() {
+	m.mu.Lock()
+	m.shrinkHold = make(chan struct{})
+	m.shrinkParked = 0
+	m.mu.Unlock()
+}
+
+// ReleaseShrinkers returns how many shrink iterations were held.
+func (m *LockMon) ReleaseShrinkers() int {
+	m.mu.Lock()
+	h := m.shrinkHold
+	m.shrinkHold = nil
+	n := m.shrinkParked
+	m.mu.Unlock()
+	if h != nil {
+		close(h)
+	}
+	return n
 }
 
 // ArmGate parks the calling goroutine at its n-th transaction abort until
